@@ -915,7 +915,9 @@ class Executor:
                 self._binders.pop()
             return BoolV(z3.ForAll([j], body) if name == "forall" else z3.Exists([j], body))
         if name == "sum" and len(a) == 4 and isinstance(a[0], ast.Name):
-            j = fresh(a[0].id, z3.IntSort())
+            # the bound variable is named by nesting depth only, so that two textual occurrences of one summand are the SAME lambda term
+            # (z3 compares bound-variable names); nested binders get different depths, so nothing is captured
+            j = z3.Int(f"sumvar!{len(self._binders)}")
             sub = st.clone()
             sub.env[a[0].id] = IntV(j)
             lo, hi = self.as_int(self.ev(a[1], st, True)), self.as_int(self.ev(a[2], st, True))
